@@ -107,7 +107,7 @@ theorem tyRest_shift {rest : List Tok} (h : TyRest rest) : shiftAssignHead rest 
 def DeclRest : List Tok → Prop
   | [] => True
   | t :: _ => t ≠ .p .Asterix ∧ t ≠ .p .Ampersand ∧ t ≠ .p .LeftSquareBracket ∧ t ≠ .p .Const ∧ t ≠ .p .Volatile ∧
-      t.isLt = false
+      t.isLt = false ∧ t ≠ .p .Equals
 
 theorem tyRest_declRest {rest : List Tok} (h : TyRest rest) : DeclRest rest := by
   obtain ⟨t, r, rfl, h'⟩ := tyRest_cases h
@@ -384,5 +384,150 @@ theorem rtDecl_arrs (d : Decl) (hw : WFDecl W d) (ha : arrOnly d = true) (hne : 
   unfold parseDecl
   simp only [List.cons_append] at this ⊢
   simp [this]
+
+/-! ## Type ids -/
+
+def RTTy (ty : TyId) : Prop :=
+  ∀ sym fol rest, (sym = true → W.contains (tyName ty) = true) → TyRest rest →
+    (hasLtTy ty = true → TmplFree (toks (fmtTyId ty fol) ++ rest) = true) →
+    ∃ N, ∀ f, N ≤ f → parseTyId W f sym (toks (fmtTyId ty fol) ++ rest) = some (ty, rest)
+
+def RTTArgs (as : TArgs) : Prop :=
+  ∀ a r, as = .cons a r → ∀ fol rest, shiftAssignHead rest = false → NoEq rest →
+    (hasLtTArgs as = true → TmplFree (toks (fmtTArgs as fol) ++ rest) = true) →
+    ∃ N, ∀ f, N ≤ f → parseTArgsReq W f (toks (fmtTArgs as fol) ++ rest) = some (as, rest)
+
+/-- first token of an abstract declarator followed by `rest` -/
+theorem decl_head (d : Decl) (hw : WFDecl W d) (hb : d.abstr = true) (rest : List Tok) (hr : DeclRest rest) :
+    ∀ t r, toks (fmtDecl d true) ++ rest = t :: r →
+      t.isLt = false ∧ t ≠ .p .Const ∧ t ≠ .p .Volatile ∧ (t.isGt = true → toks (fmtDecl d true) = []) ∧
+      t ≠ .p .Equals := by
+  intro t r h
+  cases d with
+  | empty =>
+    simp [fmtDecl] at h
+    subst h
+    simp only [DeclRest] at hr
+    exact ⟨hr.2.2.2.2.2.1, hr.2.2.2.1, hr.2.2.2.2.1, fun _ => by simp [fmtDecl], hr.2.2.2.2.2.2⟩
+  | name n => simp [Decl.abstr] at hb
+  | ptr q i =>
+    simp [fmtDecl, pp] at h
+    obtain ⟨rfl, _⟩ := h
+    exact ⟨rfl, by decide, by decide, fun h => by simp [Tok.isGt] at h, by decide⟩
+  | ref i =>
+    simp [fmtDecl, pp] at h
+    obtain ⟨rfl, _⟩ := h
+    exact ⟨rfl, by decide, by decide, fun h => by simp [Tok.isGt] at h, by decide⟩
+  | arr i s =>
+    obtain ⟨⟨r0, hr0⟩, _⟩ := arr_head W (.arr i s) (by simp [arrOnly, arrOnly_of_noScope W i hw.2.1 hw.1]) hb
+      (by simp [Decl.isEmptyD]) hw
+    rw [hr0] at h
+    simp at h
+    obtain ⟨rfl, _⟩ := h
+    exact ⟨rfl, by decide, by decide, fun h => by simp [Tok.isGt] at h, by decide⟩
+  | arrN i =>
+    obtain ⟨⟨r0, hr0⟩, _⟩ := arr_head W (.arrN i) (by simp [arrOnly, arrOnly_of_noScope W i hw.2 hw.1]) hb
+      (by simp [Decl.isEmptyD]) hw
+    rw [hr0] at h
+    simp at h
+    obtain ⟨rfl, _⟩ := h
+    exact ⟨rfl, by decide, by decide, fun h => by simp [Tok.isGt] at h, by decide⟩
+
+theorem toks_fmtTyId (mods : List TypeMod) (n : String) (targs : TArgs) (d : Decl) (fol : Bool) :
+    toks (fmtTyId (.mk mods n targs d) fol) =
+      mods.map modTok ++ (.id n :: (toks (fmtTArgs targs (startsTok (fmtDecl d true) fol)) ++ toks (fmtDecl d true))) := by
+  simp [fmtTyId, toks_fmtMods_before]
+
+theorem shift_of_head {ts : List Tok} (h : ∀ t r, ts = t :: r → t.isGt = false) : shiftAssignHead ts = false := by
+  cases ts with
+  | nil => rfl
+  | cons t r =>
+    have := h t r rfl
+    cases t <;> simp [Tok.isGt] at this <;> rfl
+
+theorem noEq_of_head {ts : List Tok} (h : ∀ t r, ts = t :: r → t ≠ .p .Equals) : NoEq ts := by
+  cases ts with
+  | nil => trivial
+  | cons t r =>
+    have := h t r rfl
+    cases t with
+    | p k => cases k <;> first | trivial | exact absurd rfl this
+    | _ => trivial
+
+theorem rtTy (mods : List TypeMod) (n : String) (targs : TArgs) (d : Decl) (hw : WFTy W (.mk mods n targs d))
+    (hb : d.abstr = true) (ihT : RTTArgs W targs) (ihD : RTDecl W d) : RTTy W (.mk mods n targs d) := by
+  intro sym fol rest hsym hrest hsafe
+  obtain ⟨hstop, hwT, hwD⟩ := hw
+  have hdr := tyRest_declRest hrest
+  have hhead := decl_head W d hwD hb rest hdr
+  rw [toks_fmtTyId] at hsafe ⊢
+  simp only [List.append_assoc, List.cons_append] at hsafe ⊢
+  -- the declarator
+  obtain ⟨N2, h2⟩ := ihD hb rest hdr (fun hl => tmplFree_suffix
+    ((List.suffix_append _ _).trans ((List.suffix_cons _ _).trans (List.suffix_append _ _)))
+    (hsafe (by simp [hasLtTy, hl])))
+  have hafter : takeModsAfter (toks (fmtDecl d true) ++ rest) = ([], toks (fmtDecl d true) ++ rest) := by
+    obtain ⟨t, r, hr⟩ : ∃ t r, toks (fmtDecl d true) ++ rest = t :: r := by
+      obtain ⟨t, r, rfl, _⟩ := tyRest_cases hrest
+      cases h : toks (fmtDecl d true) with
+      | nil => exact ⟨t, r, rfl⟩
+      | cons u us => exact ⟨u, us ++ t :: r, rfl⟩
+    rw [hr]
+    exact takeModsAfter_stop _ _ (hhead t r hr).2.1 (hhead t r hr).2.2.1
+  -- the template arguments
+  have hT : ∃ N1, ∀ f, N1 ≤ f →
+      parseTArgsReq W f (toks (fmtTArgs targs (startsTok (fmtDecl d true) fol)) ++ (toks (fmtDecl d true) ++ rest)) =
+          some (targs, toks (fmtDecl d true) ++ rest) ∨
+      (parseTArgsReq W f (toks (fmtTArgs targs (startsTok (fmtDecl d true) fol)) ++ (toks (fmtDecl d true) ++ rest)) = none ∧
+        targs = .nil) := by
+    cases targs with
+    | nil =>
+      refine ⟨0, fun f _ => ?_⟩
+      simp only [fmtTArgs, toks_nil, List.nil_append]
+      obtain ⟨t, r, hr⟩ : ∃ t r, toks (fmtDecl d true) ++ rest = t :: r := by
+        obtain ⟨t, r, rfl, _⟩ := tyRest_cases hrest
+        cases h : toks (fmtDecl d true) with
+        | nil => exact ⟨t, r, rfl⟩
+        | cons u us => exact ⟨u, us ++ t :: r, rfl⟩
+      right
+      rw [hr, parseTArgsReq_notlt W f t r (hhead t r hr).1]
+      simp
+    | cons a r =>
+      have hsh : shiftAssignHead (toks (fmtDecl d true) ++ rest) = false := by
+        cases hd : toks (fmtDecl d true) with
+        | nil => simpa using (tyRest_shift hrest).1
+        | cons u us =>
+          apply shift_of_head
+          intro t r ht
+          simp only [List.cons_append, List.cons.injEq] at ht
+          obtain ⟨rfl, _⟩ := ht
+          cases hg : u.isGt with
+          | false => rfl
+          | true =>
+            have := (hhead u (us ++ rest) (by rw [hd]; rfl)).2.2.2.1 hg
+            rw [hd] at this; cases this
+      have hne : NoEq (toks (fmtDecl d true) ++ rest) := by
+        apply noEq_of_head
+        intro t r ht
+        exact (hhead t r ht).2.2.2.2
+      obtain ⟨N1, h1⟩ := ihT a r rfl _ _ hsh hne (fun hl => tmplFree_suffix
+        ((List.suffix_cons _ _).trans (List.suffix_append _ _)) (by
+          have := hsafe (by simp [hasLtTy, hl])
+          simpa [List.append_assoc] using this))
+      exact ⟨N1, fun f hf => Or.inl (h1 f hf)⟩
+  obtain ⟨N1, h1⟩ := hT
+  refine ⟨max N1 N2 + 1, fun f hf => ?_⟩
+  obtain ⟨f', rfl, hf'⟩ := succ_of_pos hf
+  unfold parseTyId
+  rw [takeModsBefore_mods mods (.id n) _ hstop]
+  have hsym' : (sym && !W.contains n) = false := by
+    cases sym with
+    | false => rfl
+    | true => simp [tyName] at hsym; simp [hsym]
+  simp only [hsym', Bool.false_eq_true, if_false]
+  rcases h1 f' (by omega) with h | ⟨h, rfl⟩
+  · simp only [h, hafter, h2 f' (by omega), List.append_nil]
+  · simp only [fmtTArgs, toks_nil, List.nil_append] at h ⊢
+    simp only [h, hafter, h2 f' (by omega), List.append_nil]
 
 end RsslVerif.Lemmas.RoundtripFull
